@@ -342,6 +342,27 @@ def run(ctx):
                     if key not in seen0:
                         seen0.add(key)
                         cases.append({"cmd": cmd, "vec": vec, "labels": labels, "dev": 3 if fval else 2})
+    # ALL combinations of the independent switches (testnet, paranoia, passphrase, file target, non-default account, non-default
+    # interval) for every sub-command: interactions of options that are each fine alone
+    import itertools as _it
+    for cmd in ("from-entropy-hex", "from-mnemonic", "from-bip39-seed", "from-master-xprv"):
+        dims = dims_for(cmd)
+        names = list(dims)
+        switches = [n for n in ("testnet", "paranoia", "password", "file", "account", "interval") if n in dims]
+        for r_ in range(2, len(switches) + 1):
+            for subset in _it.combinations(switches, r_):
+                if not ctx.thorough and r_ > 3 and not {"testnet", "password"} <= set(subset):
+                    continue
+                vec = {m: dims[m][0][0] for m in names}
+                labels = {m: dims[m][0][1] for m in names}
+                for n in subset:
+                    pick = 2 if n in ("account", "interval") else 1
+                    vec[n], labels[n] = dims[n][pick]
+                vec = {k: (list(v) if isinstance(v, tuple) else v) for k, v in vec.items()}
+                key = json.dumps([cmd, vec], sort_keys=True)
+                if key not in seen0:
+                    seen0.add(key)
+                    cases.append({"cmd": cmd, "vec": vec, "labels": labels, "dev": r_})
     # computed-intermediate corner (vf/corners.py): accounts whose extended PRIVATE key text contains a field name of the schema
     from .. import corners
     kept, st = corners.cover(((a, _acct_text_feats(a)) for a in range(ctx.seed * 5000, 10**7)), {}, 200000, positions=False, firstlast=False, pairs=False,
